@@ -49,6 +49,18 @@ def handle : List Sexp → Option String
       match X690.berVariant t v sc with
       | some b => some s!"ok {hexOut b}"
       | none => some "err refused"
+  | [.atom "DECU", .atom codec, .atom hex] => do
+      let cfg ← (match codec with
+        | "ber" => some Generated.berDecByTag | "cer" => some Generated.cerDecByTag
+        | "der" => some Generated.derDecByTag | _ => none)
+      let b ← hexArg hex
+      match decodeSchemaless cfg b with
+      | .ok (u, rest) =>
+        let kind := match u with
+          | .leaf _ _ => "leaf" | .record _ _ => "record" | .listOf _ _ => "listof" | .tagged _ _ => "tagged"
+        some ("ok " ++ kind ++ " " ++ hexOut rest ++
+          String.join (u.leaves.map fun (n, v) => s!" ({n} {valStr v})"))
+      | .error e => some s!"err {errStr e}"
   | [.atom "WF", t] => do
       let t ← tyOf t
       some (if t.WF then "ok 1" else "ok 0")
